@@ -3,5 +3,5 @@ From Coq Require Import ExtrOcamlBasic.
 From Coq Require Extraction.
 From Coq Require Import NArith.
 From Muscle Require Import Gen.Consts Cont.QueueModel.
-Definition small_queue_size : nat := N.to_nat c_SMALL_QUEUE_SIZE.
+Definition small_queue_size : nat := N.to_nat c_QUEUE_INLINE_SLOTS_INT32.
 Extraction "queue_model.ml" step0 step1 step20 step2 empty_q abs qsize small_queue_size.
